@@ -754,7 +754,97 @@ def c19(ctx):
     corpus_validate(ctx, scripts, "c19tests")
 
 
+def run_mc_lex(ctx, maxlen, alphabet, name):
+    cfg = os.path.join(sv.scratch("cfg", clean=False), name + ".cfg")
+    open(cfg, "w").write("INIT MCLexInit\nNEXT MCLexNext\nCONSTANTS\n  MaxLen = %d\n  Alphabet <- %s\n"
+                         "INVARIANTS\n  LexInv\n  EmitLex\nPROPERTIES\n  Progress\nCHECK_DEADLOCK TRUE\n"
+                         % (maxlen, alphabet))
+    rc, out = sv.tlc("MC_Lex", cfg=cfg, timeout=3000, metaname=name)
+    if not sv.tlc_ok(rc, out):
+        raise sv.ToolError("TLC on MC_Lex (%s) failed:\n%s" % (name, sv.tlc_error_text(out)))
+    st = sv.tlc_stats(out)
+    ctx.states += st["distinct"]
+    ctx.transitions += st["generated"]
+    ctx.models[name] = {"module": "MC_Lex", "MaxLen": maxlen, "alphabet": alphabet,
+                        "distinct_states": st["distinct"], "states_generated": st["generated"],
+                        "invariants": ["PosInv", "InBounds", "LineBound", "OneError", "TokensOrdered",
+                                       "StmtEndRule", "SlotsWellFormed"], "properties": ["Progress"]}
+    return sv.tagged(out, "LEX")
+
+
+def c03(ctx):
+    import lexcheck as lx
+    ml = 3 if ctx.quick else 4
+    ctx.rule = ("all strings of length <= %d over a 28-character alphabet that reaches every lexer branch (letter, "
+                "digit, _, space, tab, CR, LF, ; # \" $ \\ { } x n + - = ! | & . > < :, a 2-byte and a 4-byte "
+                "character): SeedLex run by TLC with position / bounds / progress / single-error invariants, the "
+                "real token stream must equal the specification's, and the CLI must follow the front-end protocol; "
+                "plus every truncation of the repository's test scripts, seeded byte- and token-level mutants and "
+                "non-UTF-8 inputs; non-trivial = strings with at least one token or error; distinct = distinct texts"
+                % ml)
+    specs = run_mc_lex(ctx, ml, "FullAlphabet", "MC_Lex_full%d" % ml)
+    texts = [lx.text_of(o["src"]) for o in specs]
+    lx.check_texts(ctx, texts, specs, "c03", "C03")
+    for o in specs:
+        if o["toks"] or o["err"]["k"] != "none":
+            ctx.nontrivial.add(json.dumps(o["src"]))
+    for o in specs[:: max(1, len(specs) // 3)][:3]:
+        ctx.sample({"text": lx.text_of(o["src"]), "tokens": [t["k"] for t in o["toks"]], "error": o["err"]})
+    # corpora: truncations and mutants of real programs, through SeedLexRun
+    import random
+    rnd = random.Random(ctx.seed)
+    scripts = repo_test_scripts()
+    corpus = []
+    for label, text in scripts[:: (6 if ctx.quick else 1)]:
+        for cut in range(0, len(text) + 1, 1 if not ctx.quick else max(1, len(text) // 12)):
+            corpus.append(text[:cut])
+    for label, text in mutants(scripts, ctx.seed, 2 if ctx.quick else 20):
+        corpus.append(text)
+    for label, text in scripts[:: (3 if ctx.quick else 1)]:
+        if text:
+            bs = bytearray(text.encode())
+            for _ in range(2):
+                bs[rnd.randrange(len(bs))] = rnd.choice(b"\"$\\{}#;\n x\t=!&|.<>:-+*/%()[],0_")
+            try:
+                corpus.append(bs.decode("utf-8"))
+            except UnicodeDecodeError:
+                pass
+    corpus = sorted(set(corpus))
+    outs, st = lx.spec_lex(corpus, "c03corpus")
+    ctx.states += st["distinct"]
+    ctx.transitions += st["generated"]
+    ctx.models["SeedLexRun:c03corpus"] = {"module": "SeedLexRun", "texts": len(corpus),
+                                          "distinct_states": st["distinct"], "states_generated": st["generated"]}
+    lx.check_texts(ctx, corpus, outs, "c03corpus", "C03")
+    for t in corpus:
+        ctx.nontrivial.add(t)
+    # non-UTF-8 content and an empty file: read error / success, never a crash
+    plain = sv.build(False)
+    d = sv.scratch("c03bytes")
+    blobs = [b"", b"\xff", b"print(1)\n\xc3", b"\xc3\x28", b"x := \"\xed\xa0\x80\"\n", b"\x00", b"print(1)\n\x00\n",
+             b"\xef\xbb\xbfprint(1)\n", b"\xf4\x90\x80\x80"]
+    for i, b in enumerate(blobs):
+        fn = "b%d.sd" % i
+        open(os.path.join(d, fn), "wb").write(b)
+        so, se, code = sv.run_seed(plain, fn, d)
+        ctx.evaluations += 1
+        try:
+            b.decode("utf-8")
+            valid = True
+        except UnicodeDecodeError:
+            valid = False
+        cr = sv.crashed(se, code)
+        if cr:
+            ctx.violation("the front end crashed (%s) on bytes %r" % (cr, b), script=repr(b), prop="C03")
+        elif not valid and not (code == 103 and so == b"" and se.count(b"\n") == 1
+                                and b"couldn't read script" in se):
+            ctx.violation("non-UTF-8 input %r is not rejected with one read error" % b, script=repr(b),
+                          detail={"stdout": so.decode(errors="replace"), "stderr": se.decode(errors="replace"),
+                                  "exit": code}, prop="C03")
+
+
 REGISTRY = {
+    "C03": c03,
     "C19": c19,
     "C02": c02,
     "C01": c01,
